@@ -145,6 +145,12 @@ def c10_units(valid):
 
 def c10_build(valid, unit, v, r, new_id):
     """script with the outcome vector v (S silent, F send fault, M malformed, V valid) injected at `unit`"""
+    return c10_build_multi(valid, {unit: v}, r, new_id)
+
+
+def c10_build_multi(valid, vecs, r, new_id):
+    """the same with a vector for several units of one query at once (vecs: unit -> vector, at most one unit per
+    section); sections without a vector are answered at once"""
     c = valid.case()
     seg = valid.seg()
     ch = [int(x) for x in valid.tags["CH"].split(",")]
@@ -152,12 +158,13 @@ def c10_build(valid, unit, v, r, new_id):
     starts = [0, seg[0], seg[0] + seg[1]]
     groups = [ds[starts[k]:starts[k] + seg[k]] for k in range(3)]
     newds, faults = [], []
-    section, late = unit % 3, unit >= 3
+    by_section = {u % 3: (u >= 3, v) for u, v in vecs.items()}
     for k in range(3):
-        if k != section:
+        if k not in by_section:
             newds += groups[k]
             faults += [False] * (1 + ch[k])
             continue
+        late, v = by_section[k]
         # the challenge replies of one attempt (one datagram each), delivered before a late fault
         pre = groups[k][:ch[k]] if late else []
         for e in v:
